@@ -43,7 +43,10 @@ def worker(slot, jobs_list, checks):
                     p = subprocess.run(['./check', c], cwd=vm, env=env, stdout=subprocess.PIPE, stderr=subprocess.STDOUT,
                                        timeout=900)
                     text = p.stdout.decode('utf-8', 'replace')
-                    first = next((l.strip() for l in text.split('\n') if l.startswith('  ')), '')
+                    lines = text.split('\n')
+                    vi = next((i for i, l in enumerate(lines) if l.startswith('VIOLATION')), None)
+                    # the line the check prints before its first VIOLATION line says what failed
+                    first = lines[vi - 1].strip() if vi else next((l.strip() for l in lines if l.startswith('  ') and not l.startswith('  File')), '')
                     nf = 'no-failing-input-found' in text
                     res[c] = {'exit': p.returncode, 'first': first[:300], 'no_failing_input': nf}
                 except subprocess.TimeoutExpired:
